@@ -995,3 +995,54 @@ func factsPool(p *pkg) {
 	emit("def poolPaths : List (String × List (List String)) := [%s]", strings.Join(rows, ", "))
 	emit("")
 }
+
+// ---------------------------------------------------------------- the jailed body is single-threaded
+
+// factsJailBody: chrootarchive runs archive.Unpack, archive.UnpackLayer and (*Tarballer).Do on a thread whose
+// root was switched; the jail is per thread, so nothing reachable from them may hand work to another
+// goroutine (it would run on a thread with the host's root).  Name-based call graph inside package archive
+// (an over-approximation: a call `x.f(..)` or `f(..)` reaches every function or method named f of the package).
+func factsJailBody(p *pkg) {
+	decls := map[string][]*ast.FuncDecl{}
+	for _, fn := range p.sortedFiles() {
+		for _, d := range p.files[fn].Decls {
+			if fd, ok := d.(*ast.FuncDecl); ok && fd.Body != nil {
+				decls[fd.Name.Name] = append(decls[fd.Name.Name], fd)
+			}
+		}
+	}
+	seen := map[string]bool{}
+	var gos []string
+	var visit func(name string)
+	visit = func(name string) {
+		if seen[name] {
+			return
+		}
+		seen[name] = true
+		for _, fd := range decls[name] {
+			ast.Inspect(fd.Body, func(n ast.Node) bool {
+				switch v := n.(type) {
+				case *ast.GoStmt:
+					gos = append(gos, name)
+				case *ast.CallExpr:
+					switch f := v.Fun.(type) {
+					case *ast.Ident:
+						visit(f.Name)
+					case *ast.SelectorExpr:
+						visit(f.Sel.Name)
+					}
+				}
+				return true
+			})
+		}
+	}
+	for _, r := range []string{"Unpack", "UnpackLayer", "Do"} {
+		visit(r)
+	}
+	sort.Strings(gos)
+	emit("-- archive: what runs inside the jail (Unpack, UnpackLayer, Tarballer.Do and everything they reach in the package)")
+	emit("/-- functions reachable from the jailed bodies that contain a `go` statement (the jail is per thread) -/")
+	emit("def jailBodyGoStmts : List String := %s", leanStrList(gos))
+	emit("def jailBodyRootsFound : Bool := %s", boolLean(len(decls["Unpack"]) > 0 && len(decls["UnpackLayer"]) > 0 && len(decls["Do"]) > 0))
+	emit("")
+}
